@@ -62,6 +62,10 @@ type Phase struct {
 	Ops   []string `json:"ops"`
 	Depth int      `json:"depth"`
 	Dev   int      `json:"dev_budget"`
+	// optional restriction of the FIRST / SECOND op of every path to a subset of Ops (product-shaped
+	// phases such as "every configuration boundary x every follow-up op"); deeper levels use all Ops
+	First  []string `json:"first_ops,omitempty"`
+	Second []string `json:"second_ops,omitempty"`
 }
 
 // Config of one property check on Engine W.
@@ -254,6 +258,14 @@ func (x *Explorer) step(op *Op, parent []Measure, path []string, root string, ph
 		}
 	}
 	br := w.Exec(plan)
+	for _, ge := range plan.GovErrs {
+		// configuration ops: what validation + the real handler accepted / refused (vacuity control)
+		if ge == "" {
+			Clauses.Inc("config_change_accepted")
+		} else {
+			Clauses.Inc("config_change_refused_by_validation_or_handler")
+		}
+	}
 	x.res.Transitions++
 	if !br.OK() {
 		x.res.Blocked++
@@ -662,16 +674,34 @@ func makeUnits(cfg *Config, lib *OpLib) []unit {
 	var us []unit
 	for pi, ph := range cfg.Phases {
 		n := len(ph.Ops)
+		in := func(set []string, name string) bool {
+			if len(set) == 0 {
+				return true
+			}
+			for _, x := range set {
+				if x == name {
+					return true
+				}
+			}
+			return false
+		}
 		for _, r := range ph.Roots {
 			if ph.Depth <= 1 {
 				for i := 0; i < n; i++ {
-					us = append(us, unit{pi, r, []int{i}})
+					if in(ph.First, ph.Ops[i]) {
+						us = append(us, unit{pi, r, []int{i}})
+					}
 				}
 				continue
 			}
 			for i := 0; i < n; i++ {
+				if !in(ph.First, ph.Ops[i]) {
+					continue
+				}
 				for j := 0; j < n; j++ {
-					us = append(us, unit{pi, r, []int{i, j}})
+					if in(ph.Second, ph.Ops[j]) {
+						us = append(us, unit{pi, r, []int{i, j}})
+					}
 				}
 			}
 		}
